@@ -99,9 +99,6 @@ func New(cfg Config) *Sys {
 		names = append(names, C)
 	}
 	accts := []string{"r1", "r2", "u1", "u2", "out"}
-	if cfg.TSS {
-		accts = append(accts, "tss")
-	}
 	for _, n := range names {
 		s.w.Add(n, world.Options{Accounts: accts})
 	}
@@ -118,10 +115,10 @@ func New(cfg Config) *Sys {
 					continue
 				}
 				if cfg.TSS && n == A && m == B {
-					// A's client of B is a TSS client whose configured account is "tss" (also a registered relayer)
-					tcs := &tsstypes.ClientState{TssAddress: c.Accounts["tss"].Acc.String(), Pubkey: []byte{1}, PartPubkeys: [][]byte{{2}}, Threshold: 1}
+					// A's client of B is a TSS client whose configured account is u2 (also a registered relayer)
+					tcs := &tsstypes.ClientState{TssAddress: c.Accounts["u2"].Acc.String(), Pubkey: []byte{1}, PartPubkeys: [][]byte{{2}}, Threshold: 1}
 					must(c.App.XIBCKeeper.ClientKeeper.CreateClient(ctx, m, tcs, &tsstypes.ConsensusState{}))
-					world.RegisterRelayers(c, ctx, m, "tss")
+					world.RegisterRelayers(c, ctx, m, "u2")
 				} else {
 					world.CreateTMClient(c, ctx, s.w.Chains[m])
 				}
@@ -621,7 +618,7 @@ func (s *Sys) recvMsg(t *transfer, form string) (msgs []sdk.Msg, signer world.Ac
 	src := s.w.Chains[t.Src]
 	signer = dst.Accounts["r1"]
 	if s.tss(dst.Name, src.Name) {
-		signer = dst.Accounts["tss"] // every form except g2 carries the TSS account's signature
+		signer = dst.Accounts["u2"] // every form except g2 carries the TSS account's signature
 	}
 	var p packettypes.Packet
 	must(p.ABIDecode(t.Bytes))
@@ -684,7 +681,7 @@ func (s *Sys) groundTruthRecv(dst *world.Chain, m *packettypes.MsgRecvPacket, ad
 		return
 	}
 	if s.tss(dst.Name, src.Name) {
-		if m.Signer != dst.Accounts["tss"].Acc.String() {
+		if m.Signer != dst.Accounts["u2"].Acc.String() {
 			add("C06", "tss-secured-receive-accepted-from-another-signer", fmt.Sprintf("recv %s on %s signed by %s", what, short[dst.Name], m.Signer))
 		}
 		return
@@ -729,7 +726,7 @@ func (s *Sys) ackMsg(t *transfer, form string) (sdk.Msg, world.Account, *world.C
 	dst := s.w.Chains[t.Dst]
 	signer := src.Accounts["r1"]
 	if s.tss(src.Name, dst.Name) && form != "conflict" && form != "early" {
-		signer = src.Accounts["tss"] // genuine forms carry the TSS account's signature; forged ones come from an ordinary relayer
+		signer = src.Accounts["u2"] // genuine forms carry the TSS account's signature; forged ones come from an ordinary relayer
 	}
 	var p packettypes.Packet
 	must(p.ABIDecode(t.Bytes))
